@@ -800,6 +800,29 @@ def _const_str(e, flow, at):
         sd = flow.single_def(e.id, at)
         if sd is not None:
             return _const_str(sd[0], flow, sd[1])
+    func = getattr(flow, 'func', None)
+    if func is not None and isinstance(e, ast.Attribute) and isinstance(e.value, ast.Name) and e.value.id in ('self', 'cls') \
+       and func.cls is not None:
+        # a format kept as a class-level constant (class body assignment, looked up along the base classes)
+        for ci in (func.cls.mro or [func.cls]):
+            if e.attr in ci.class_attrs:
+                try:
+                    from .model import const_value
+                    v = const_value(ci.class_attrs[e.attr])
+                    return v if isinstance(v, str) else None
+                except Exception:
+                    return None
+    if func is not None and isinstance(e, ast.Name) and (flow is None or e.id not in flow.rd.names):
+        # ... or as a module-level constant bound once
+        hits = [st for st in func.module.tree.body if isinstance(st, ast.Assign) and
+                any(isinstance(t, ast.Name) and t.id == e.id for t in st.targets)]
+        if len(hits) == 1:
+            try:
+                from .model import const_value
+                v = const_value(hits[0].value)
+                return v if isinstance(v, str) else None
+            except Exception:
+                return None
     return None
 
 
